@@ -290,6 +290,8 @@ class MotionMonitor(Monitor):
         if feats.get("fw"):
             case["fw"] = True
             case["fwparam"] = feats["fwparam"]
+        if rnd.random() < self.plugin_share:
+            case = self.as_plugin_case(case)
         return case
 
     def oracle(self, tr, stats, case):
@@ -298,10 +300,38 @@ class MotionMonitor(Monitor):
     def nontrivial(self, tr, case):
         return any(e["close"] is not None for e in tr.episodes)
 
+    plugin_share = 0.05     # share of the random cases that go through the real plugin object and its registered hooks
+
+    def as_plugin_case(self, case):
+        """The same case through the plugin layer: __plugin_load__, the hook table, settings stored in the settings object,
+        regions added through the API, a PrintStarted event first."""
+        st = dict(case["settings"])
+        for key in ("enter", "exit"):
+            if isinstance(st.get(key), (list, tuple)):
+                st[key] = "\n".join(st[key]) + "\n"
+        st.setdefault("clear", False)
+        st.setdefault("shrink", False)
+        return dict(case, plugin=True, settings=st, steps=[["event", "PrintStarted"]] + list(case["steps"]))
+
+    def run_plugin_case(self, case):
+        from ..harness import Plugin, region_payload
+        from ..e2e import Engine
+        p = Plugin(case["settings"])
+        for r in case["regions"]:
+            p.api("addExcludeRegion", region_payload(r))
+        p.add_region = lambda r: p.api("addExcludeRegion", region_payload(r))
+        eng = Engine(case, driver=p)
+        eng.active = False
+        return eng.run()
+
     def check_case(self, case):
         stats = collections.Counter()
         sets = collections.defaultdict(set)
-        tr = run_case(case)
+        if case.get("plugin"):
+            tr = self.run_plugin_case(case)
+            stats["cases_through_the_registered_plugin_hooks"] += 1
+        else:
+            tr = run_case(case)
         common_stats(tr, stats, sets)
         stats["class:" + str(case.get("cls"))] += 1
         if case.get("cls") == "exhaustive-automaton":
@@ -363,7 +393,8 @@ class C01(MotionMonitor):
         return oracle_c01(tr, stats)
 
     def thresholds(self, tier):
-        return {"episodes_opened": 50, "c01_moves_judged": 200, "c01_steps_in_episode": 100}
+        return {"episodes_opened": 50, "c01_moves_judged": 200, "c01_steps_in_episode": 100,
+                "cases_through_the_registered_plugin_hooks": 20}
 
     def regressions(self):
         return [("arc-under-g91", K3_WITNESS_C01)]
@@ -397,7 +428,8 @@ class C03(MotionMonitor):
         return False
 
     def thresholds(self, tier):
-        return {"c03_closing_steps": 50, "c03_outside_moves": 500, "c03_resync_travels": 50}
+        return {"c03_closing_steps": 50, "c03_outside_moves": 500, "c03_resync_travels": 50,
+                "cases_through_the_registered_plugin_hooks": 20}
 
     def witnesses(self):
         return [("K2", K2_WITNESS)]
